@@ -36,9 +36,13 @@ HEADER = "From PyOMA.Base Require Import Cplx.\nFrom PyOMA.Model Require Import 
 TOL_A = 1e-12
 TOL_B = 1e-6
 TOL_EFDD = 1e-8
+# covariance tables under NON-dyadic changes: the sensitivities go through a nearly singular inverse (Eq. 28 of the reference), the
+# unchanged code reproduces the variance of fn to 1e-9 ... 2e-3 and the (fn, xi) cross term it stores as Xi_poles_cov to ~10 %
+TOL_COV = 2e-2
+TOL_XCOV = 1.0   # within a factor 2
 NEAR = 1e-7  # threshold decisions closer than this (relative) to their limit are not judged in tier B
 
-SINGLE_ALGS = ["FDD", "EFDD", "FSDD", "SSIcov_mm", "SSIcov_R", "SSIdat", "pLSCF"]
+SINGLE_ALGS = ["FDD", "EFDD", "FSDD", "SSIcov_mm", "SSIcov_R", "SSIdat", "pLSCF", "SSIcov_mm_unc"]   # _unc: calc_unc=True (covariance tables, cov_max bites)
 MULTI_ALGS = ["FDD_MS", "EFDD_MS", "SSIcov_MS_mm", "SSIcov_MS_R", "SSIdat_MS", "pLSCF_MS"]
 HC_DEFAULT = dict(conj=True, xi_max=0.1, mpc_lim=0.7, mpd_lim=0.3, cov_max=0.2)
 HC_NEUTRAL = dict(conj=True, xi_max=0.1, mpc_lim=0.0, mpd_lim=2.0, cov_max=0.2)  # MPC / MPD cannot bite (mixing)
@@ -144,7 +148,7 @@ def build_case_data(spec):
 
 
 # ------------------------------------------------------------------------------------------------ running the classes
-def make_alg(alg, P, ref_ind):
+def make_alg(alg, P, ref_ind, kf=1.0):
     from pyoma2 import algorithms as A
 
     fam = family(alg)
@@ -158,10 +162,13 @@ def make_alg(alg, P, ref_ind):
         elif alg.startswith("SSIdat_MS"):
             cls, meth = A.SSIdat_MS, "dat"
         elif alg.startswith("SSIcov"):
-            cls, meth = A.SSIcov, "cov_" + alg.split("_")[-1]
+            cls, meth = A.SSIcov, "cov_" + alg.split("_")[1]
         else:
             cls, meth = A.SSIdat, "dat"
-        kw = dict(br=P["br"], ordmax=P["ordmax"], ordmin=P.get("ordmin", 0), method=meth, hc=dict(P["hc"]), sc=dict(P["sc"]))
+        # cov_max is a variance of a frequency: the same physical limit in the new time unit is cov_max * kf^2
+        kw = dict(br=P["br"], ordmax=P["ordmax"], ordmin=P.get("ordmin", 0), method=meth, hc=dict(P["hc"], cov_max=P["hc"]["cov_max"] * kf * kf), sc=dict(P["sc"]))
+        if alg.endswith("_unc"):
+            kw.update(calc_unc=True, nb=P["nb"])
         if "_MS" not in alg and ref_ind is not None:
             kw["ref_ind"] = list(ref_ind)
         return cls(name="a", **kw)
@@ -174,7 +181,7 @@ def make_alg(alg, P, ref_ind):
 FIELDS = dict(
     FDD=["freq", "Sy", "S_val", "S_vec", "Fn", "Phi"],
     EFDD=["freq", "Sy", "S_val", "S_vec", "Fn", "Xi", "Phi"],
-    SSI=["Fn_poles", "Xi_poles", "Phi_poles", "Lambds", "Lab", "Fn", "Xi", "Phi", "order_out"],
+    SSI=["Fn_poles", "Xi_poles", "Phi_poles", "Lambds", "Lab", "Fn", "Xi", "Phi", "order_out", "Fn_poles_cov", "Xi_poles_cov", "Fn_cov", "Xi_cov"],
     pLSCF=["freq", "Sy", "Fn_poles", "Xi_poles", "Phi_poles", "Lab", "Fn", "Xi", "Phi", "order_out"],
 )
 
@@ -197,7 +204,9 @@ def run_alg(spec, inp, fs, kf, hold=None, reuse=None, same_setup=False):
                 st = SingleSetup(keep_dtype(inp["data"]), fs=fs)
             else:
                 st = MultiSetup_PreGER(fs=fs, ref_ind=[list(r) for r in inp["ref_ind"]], datasets=[keep_dtype(d) for d in inp["datasets"]])
-            a = reuse[1] if reuse is not None else make_alg(alg, P, inp.get("ref_ind") if spec["setup"] == "single" else None)
+            a = reuse[1] if reuse is not None else make_alg(alg, P, inp.get("ref_ind") if spec["setup"] == "single" else None, kf)
+            if reuse is not None and fam == "SSI":
+                a.run_params.hc = dict(a.run_params.hc, cov_max=P["hc"]["cov_max"] * kf * kf)
             st.add_algorithms(a)
         if hold is not None:
             hold["pair"] = (st, a)
@@ -217,7 +226,7 @@ def run_alg(spec, inp, fs, kf, hold=None, reuse=None, same_setup=False):
     r = a.result
     for k in FIELDS[fam]:
         v = getattr(r, k, None)
-        if v is None or (k in ("Fn", "Xi", "Phi", "order_out") and "mpe_exc" in out):
+        if v is None or (k in ("Fn", "Xi", "Phi", "order_out", "Fn_cov", "Xi_cov") and "mpe_exc" in out):
             out[k] = None
         else:
             out[k] = np.array(v)
@@ -509,12 +518,14 @@ def shape_dev(exp, got):
     return float(np.max(np.abs(exp / exp[k] - got / got[k])))
 
 
-def hc_margin(P, xi, phi):
+def hc_margin(P, xi, phi, fcov=None, covmax=None):
     """how close a pole is to one of the hard-criteria limits (relative)."""
     from pyoma2.functions import gen
 
     hc = P["hc"]
     m = [abs(xi) / 1.0, abs(xi - hc["xi_max"]) / hc["xi_max"]]
+    if fcov is not None and covmax and np.isfinite(fcov):
+        m.append(abs(fcov - covmax) / covmax * (NEAR / TOL_COV))   # not judged within TOL_COV of the covariance limit
     try:
         if hc["mpc_lim"] > 0:
             m.append(abs(float(gen.MPC(phi)) - hc["mpc_lim"]) / hc["mpc_lim"])
@@ -536,6 +547,10 @@ def cmp_poles_multiset(rec, Tn, base, got, kf, smap, site, P):
         if not np.array_equal(nanpat(A_), nanpat(B_)):
             rec.fail("%s under %s: NaN pattern differs from that of Fn_poles in the same run" % (name, Tn), site + ":joint-nan")
             return
+    Cb, Cg, XCb, XCg = base.get("Fn_poles_cov"), got.get("Fn_poles_cov"), base.get("Xi_poles_cov"), got.get("Xi_poles_cov")
+    if (Cb is None) != (Cg is None) or (Cb is not None and Cb.shape != Cg.shape):
+        rec.fail("covariance tables under %s: shape/presence differs" % Tn, site + ":poles_cov-shape")
+        return
     for o in range(Fb.shape[1]):
         ib = [i for i in range(Fb.shape[0]) if not np.isnan(Fb[i, o])]
         ig = [i for i in range(Fg.shape[0]) if not np.isnan(Fg[i, o])]
@@ -560,6 +575,17 @@ def cmp_poles_multiset(rec, Tn, base, got, kf, smap, site, P):
                 rec.checked += 1
                 rec.cells += 2
                 rec.maxdev = max(rec.maxdev, abs(Fg[bj, o] - kf * Fb[i, o]) / (kf * Fb[i, o]))
+                if Cb is not None and Cg is not None:
+                    # covariance tables (calc_unc): variance of fn scales with kf^2; the damping table is compared when the time unit is kept
+                    cb, cg = Cb[i, o] * kf * kf, Cg[bj, o]
+                    bad = (np.isnan(cb) != np.isnan(cg)) or (np.isfinite(cb) and not abs(cg - cb) <= TOL_COV * abs(cb))
+                    if not bad and kf == 1.0 and XCb is not None and XCg is not None:
+                        xb_, xg_ = XCb[i, o], XCg[bj, o]
+                        bad = (np.isnan(xb_) != np.isnan(xg_)) or (np.isfinite(xb_) and not abs(xg_ - xb_) <= TOL_XCOV * abs(xb_))
+                    if bad:
+                        rec.fail("covariance tables under %s: order column %d, pole fn=%.6g: Fn_poles_cov %.6g -> %.6g (expected x %g), Xi_poles_cov %s -> %s" % (
+                            Tn, o, Fb[i, o], Cb[i, o], cg, kf * kf, None if XCb is None else XCb[i, o], None if XCg is None else XCg[bj, o]), site + ":poles_cov")
+                        return
                 if sdev > TOL_B:
                     # a conjugate pair shares (fn, xi) and has conjugate shapes
                     if min(shape_dev(np.conj(e), Pg[j, o, :]) for j in cands) <= TOL_B:
@@ -570,9 +596,10 @@ def cmp_poles_multiset(rec, Tn, base, got, kf, smap, site, P):
             else:
                 unmatched_b.append(i)
         unmatched_g = [j for j in ig if j not in used]
-        for who, idx, F_, X_, Ph_ in (("untransformed", unmatched_b, Fb, Xb, Pb), ("transformed", unmatched_g, Fg, Xg, Pg)):
+        for who, idx, F_, X_, Ph_, C_, cm_ in (("untransformed", unmatched_b, Fb, Xb, Pb, Cb, P["hc"]["cov_max"]),
+                                               ("transformed", unmatched_g, Fg, Xg, Pg, Cg, P["hc"]["cov_max"] * kf * kf)):
             for i in idx:
-                if rec.lenient or hc_margin(P, X_[i, o], Ph_[i, o, :]) <= NEAR:
+                if rec.lenient or hc_margin(P, X_[i, o], Ph_[i, o, :], None if C_ is None else C_[i, o], cm_) <= NEAR:
                     rec.not_judged += 1
                     rec.nj_cells += 1
                     continue
@@ -667,6 +694,15 @@ def compare_core(rec, spec, base, got, T, kf, smap):
             ok &= cmp_exact(rec, "Phi_poles", Tn, base["Phi_poles"], got["Phi_poles"], site)
             if fam == "SSI":
                 cmp_exact(rec, "Lambds", Tn, kf * base["Lambds"], got["Lambds"], site)
+                # covariance tables (calc_unc): Fn_poles_cov is a variance of frequencies (x kf^2); the damping table as the code
+                # stores it is compared up to one factor when the time unit changes, exactly otherwise
+                for nm_ in ("Fn_poles_cov", "Fn_cov"):
+                    cmp_exact(rec, nm_, Tn, None if base.get(nm_) is None else kf * kf * base[nm_], got.get(nm_), site)
+                for nm_ in ("Xi_poles_cov", "Xi_cov"):
+                    if kf == 1.0:
+                        cmp_exact(rec, nm_, Tn, base.get(nm_), got.get(nm_), site)
+                    elif base.get(nm_) is not None or got.get(nm_) is not None:
+                        cmp_prop(rec, nm_, Tn, base.get(nm_), got.get(nm_), site, 1e-9)
             if ok:
                 exact = all(np.array_equal(kf * base[k] if k == "Fn_poles" else base[k], got[k], equal_nan=True) for k in ("Fn_poles", "Xi_poles", "Phi_poles"))
                 cmp_lab(rec, Tn, base, got, P["sc"], site, exact)
@@ -794,6 +830,21 @@ def run_case(spec):
                 base_inp["ref_ind"] = list(spec["ref_ind"])
         else:
             base_inp = dict(datasets=d["datasets"], ref_ind=d["ref_ind"])
+        if spec["P"].get("cov_q") is not None:
+            # a cov_max that BITES: between two neighbouring values of the covariance table obtained without the criterion
+            Pq = dict(spec["P"], hc=dict(spec["P"]["hc"], cov_max=1e300))
+            pre = run_alg(dict(spec, P=Pq), base_inp, fs0, 1.0)
+            vals = np.sort(pre["Fn_poles_cov"][np.isfinite(pre["Fn_poles_cov"])]) if pre.get("Fn_poles_cov") is not None else np.array([])
+            vals = vals[vals > 0]
+            cm = None
+            j0 = int(spec["P"]["cov_q"] * len(vals))
+            for j in list(range(j0, len(vals) - 1)) + list(range(j0 - 1, -1, -1)):
+                if vals[j + 1] > vals[j] * 1.3:   # a clear gap: the limit sits >= 14 % away from every value of the table
+                    cm = float(np.sqrt(vals[j] * vals[j + 1]))
+                    break
+            spec["P"] = dict(spec["P"], hc=dict(spec["P"]["hc"], cov_max=cm if cm else 1e300))
+            spec["P"].pop("cov_q")
+            rec.spec = {k: v for k, v in spec.items()}
         hold = {}
         base = run_alg(spec, base_inp, fs0, 1.0, hold=hold)
         nontrivial = "exc" not in base
@@ -846,6 +897,9 @@ def params_for(rng, alg, tier, l_eff, nref_eff, nmodes, v):
         ordmax = int(min(rng.integers(2 * nmodes + 2, 2 * nmodes + 7), cap))
         P["br"], P["ordmax"] = br, ordmax
         P["order"] = int(min(ordmax, 2 * nmodes + int(rng.integers(0, 3))))
+        if alg.endswith("_unc"):
+            P["nb"] = int(rng.choice([20, 30, 50]))
+            P["cov_q"] = float(rng.choice([0.3, 0.5, 0.7]))   # cov_max is placed inside the distribution of Fn_poles_cov so that it bites
     if fam == "pLSCF":
         P["pordmax"] = int(rng.integers(3, 6))
         P["porder"] = P["pordmax"] - 1 - int(rng.integers(0, 2))
@@ -1160,7 +1214,7 @@ KEY_INT = "C08:build_hank:%s:integer-record-arithmetic"
 def hank_method(alg):
     if not alg.startswith("SSI"):
         return None
-    return "dat" if alg.startswith("SSIdat") else "cov_" + alg.split("_")[-1]
+    return "dat" if alg.startswith("SSIdat") else "cov_" + [t for t in alg.split("_") if t in ("mm", "R")][0]
 
 
 def probe_int(ctx):
